@@ -383,6 +383,149 @@ impl Run {
     }
 }
 
+
+// ---------------------------------------------------------------------------------------------
+// (E) conditional-format rules: every rule kind x every formula slot x every language x locale
+// ---------------------------------------------------------------------------------------------
+use ironcalc_base::cf_types::{CfRule, CfRuleInput, Cfvo, ColorScaleThreshold, Icon, IconThreshold, ValueOperator};
+use ironcalc_base::types::{Color, Dxf, Fill};
+
+const CF_NUM: [&str; 8] = ["MAX(2.5,0)", "SUM($A$1:$A$6)/4.5", "AVERAGE($A$1:$A$6)*1.5", "MIN(1.5,A1)", "ROUND(7/3,1)", "LET(v,1.5,v*2)", "10.5", "LAMBDA(a,b,a+b)(1.5,2)"];
+const CF_BOOL: [&str; 5] = ["SUM(A1,1.5)>2", "AND(A1>0.5,MAX(A1,2.5)<100)", "IF(A1>2.5,TRUE,FALSE)", "LAMBDA(a,b,a+b)(A1,0.5)>3", "OR(A1=1.5,A1>=LET(v,2.5,v*2))"];
+
+fn dxf() -> Dxf { Dxf { fill: Some(Fill { color: Color::Rgb("#FFCC00".into()), ..Default::default() }), ..Default::default() } }
+fn rgb(c: &str) -> Color { Color::Rgb(c.to_string()) }
+
+/// the rule inputs (English texts): (label, input)
+fn cf_rules() -> Vec<(String, CfRuleInput)> {
+    let mut v = vec![];
+    let ops = [ValueOperator::Equal, ValueOperator::GreaterThan, ValueOperator::GreaterThanOrEqual, ValueOperator::LessThan, ValueOperator::LessThanOrEqual, ValueOperator::NotEqual, ValueOperator::Between, ValueOperator::NotBetween];
+    for (i, op) in ops.iter().enumerate() {
+        let two = matches!(op, ValueOperator::Between | ValueOperator::NotBetween);
+        v.push((format!("CellIs:{op:?}"), CfRuleInput::CellIs { operator: op.clone(), formula: CF_NUM[i % 8].to_string(), formula2: if two { Some(CF_NUM[(i + 3) % 8].to_string()) } else { None }, format: dxf(), stop_if_true: i % 2 == 0 }));
+    }
+    // Between with every pair of bounds shapes
+    for i in 0..8 { v.push((format!("CellIs:Between#{i}"), CfRuleInput::CellIs { operator: ValueOperator::Between, formula: CF_NUM[(i + 5) % 8].to_string(), formula2: Some(CF_NUM[i].to_string()), format: dxf(), stop_if_true: false })); }
+    for (i, f) in CF_BOOL.iter().enumerate() { v.push((format!("Formula#{i}"), CfRuleInput::Formula { formula: f.to_string(), format: dxf(), stop_if_true: false })); }
+    v.push(("ColorScale2".into(), CfRuleInput::ColorScale { thresholds: vec![ColorScaleThreshold { cfvo: Cfvo::Formula(CF_NUM[3].into()), color: rgb("#FF0000") }, ColorScaleThreshold { cfvo: Cfvo::Formula(CF_NUM[0].into()), color: rgb("#00FF00") }] }));
+    v.push(("ColorScale3".into(), CfRuleInput::ColorScale { thresholds: vec![ColorScaleThreshold { cfvo: Cfvo::Min, color: rgb("#FF0000") }, ColorScaleThreshold { cfvo: Cfvo::Formula(CF_NUM[4].into()), color: rgb("#FFFF00") }, ColorScaleThreshold { cfvo: Cfvo::Formula(CF_NUM[6].into()), color: rgb("#00FF00") }] }));
+    v.push(("DataBar:both".into(), CfRuleInput::DataBar { min: Some(Cfvo::Formula(CF_NUM[3].into())), max: Some(Cfvo::Formula(CF_NUM[5].into())), positive_color: rgb("#0000FF"), negative_color: rgb("#FF0000"), is_gradient: true, show_value: true }));
+    v.push(("DataBar:max".into(), CfRuleInput::DataBar { min: None, max: Some(Cfvo::Formula(CF_NUM[7].into())), positive_color: rgb("#0000FF"), negative_color: rgb("#FF0000"), is_gradient: false, show_value: true }));
+    v.push(("DataBar:min".into(), CfRuleInput::DataBar { min: Some(Cfvo::Formula(CF_NUM[0].into())), max: Some(Cfvo::Number(9.5)), positive_color: rgb("#0000FF"), negative_color: rgb("#FF0000"), is_gradient: false, show_value: false }));
+    v.push(("IconSet".into(), CfRuleInput::IconSet { thresholds: vec![
+        IconThreshold { icon: Icon::ArrowUp, cfvo: Cfvo::Formula(CF_NUM[1].into()), color: rgb("#00AA00"), is_strict: false },
+        IconThreshold { icon: Icon::ArrowRight, cfvo: Cfvo::Formula(CF_NUM[0].into()), color: rgb("#AAAA00"), is_strict: true },
+        IconThreshold { icon: Icon::ArrowDown, cfvo: Cfvo::Percent(10.0), color: rgb("#AA0000"), is_strict: false }], show_value: true }));
+    v.push(("IconRating".into(), CfRuleInput::IconRating { icon: Icon::Star, color: rgb("#FFAA00"), thresholds: vec![(Cfvo::Formula(CF_NUM[2].into()), false), (Cfvo::Formula(CF_NUM[4].into()), true)], show_value: false }));
+    v
+}
+/// a displayed rule as the input a UI would send back
+fn rule_to_input(r: &CfRule) -> Option<CfRuleInput> {
+    Some(match r.clone() {
+        CfRule::CellIs { operator, formula, formula2, stop_if_true, .. } => CfRuleInput::CellIs { operator, formula, formula2, format: dxf(), stop_if_true },
+        CfRule::Formula { formula, stop_if_true, .. } => CfRuleInput::Formula { formula, format: dxf(), stop_if_true },
+        CfRule::ColorScale { thresholds } => CfRuleInput::ColorScale { thresholds },
+        CfRule::DataBar { min, max, positive_color, negative_color, is_gradient, show_value } => CfRuleInput::DataBar { min, max, positive_color, negative_color, is_gradient, show_value },
+        CfRule::IconSet { thresholds, show_value } => CfRuleInput::IconSet { thresholds, show_value },
+        CfRule::IconRating { icon, color, thresholds, show_value } => CfRuleInput::IconRating { icon, color, thresholds, show_value },
+        _ => return None,
+    })
+}
+fn cfvo_wire(c: &Option<Cfvo>, lex: &dyn Fn(&str) -> String) -> String {
+    match c { None => "N ;;".into(), Some(Cfvo::Formula(f)) => format!("F {} ;;", lex(f)), Some(_) => "O ;;".into() }
+}
+/// the formula slots of a rule: (wire of the whole rule for the model, slots in order)
+fn rule_wire(r: &CfRule, lex: &dyn Fn(&str) -> String) -> (String, Vec<String>) {
+    let body = |f: &str| f.trim().trim_start_matches('=').to_string();
+    match r {
+        CfRule::CellIs { formula, formula2, .. } => (format!("CI F {} ;; {}", lex(&body(formula)), match formula2 { Some(f) => format!("F {} ;;", lex(&body(f))), None => "N ;;".into() }),
+            std::iter::once(formula.clone()).chain(formula2.clone()).collect()),
+        CfRule::Formula { formula, .. } => (format!("FO F {} ;;", lex(&body(formula))), vec![formula.clone()]),
+        CfRule::ColorScale { thresholds } => (format!("CS {}", thresholds.iter().map(|t| cfvo_wire(&Some(t.cfvo.clone()), lex)).collect::<Vec<_>>().join(" ")),
+            thresholds.iter().filter_map(|t| if let Cfvo::Formula(f) = &t.cfvo { Some(f.clone()) } else { None }).collect()),
+        CfRule::DataBar { min, max, .. } => (format!("DB {} {}", cfvo_wire(min, lex), cfvo_wire(max, lex)),
+            [min, max].iter().filter_map(|c| if let Some(Cfvo::Formula(f)) = c { Some(f.clone()) } else { None }).collect()),
+        CfRule::IconSet { thresholds, .. } => (format!("IS {}", thresholds.iter().map(|t| cfvo_wire(&Some(t.cfvo.clone()), lex)).collect::<Vec<_>>().join(" ")),
+            thresholds.iter().filter_map(|t| if let Cfvo::Formula(f) = &t.cfvo { Some(f.clone()) } else { None }).collect()),
+        CfRule::IconRating { thresholds, .. } => (format!("IR {}", thresholds.iter().map(|t| cfvo_wire(&Some(t.0.clone()), lex)).collect::<Vec<_>>().join(" ")),
+            thresholds.iter().filter_map(|t| if let Cfvo::Formula(f) = &t.0 { Some(f.clone()) } else { None }).collect()),
+        _ => ("OT".into(), vec![]),
+    }
+}
+/// rule without the dxf id (allocation order is not the point)
+fn rule_canon(r: &CfRule) -> String {
+    let s = format!("{r:?}");
+    match s.find("dxf_id: ") { Some(i) => { let j = s[i..].find(',').map(|k| i + k).unwrap_or(s.len()); format!("{}dxf_id: _{}", &s[..i], &s[j..]) } None => s }
+}
+fn cf_base_bytes() -> Vec<u8> {
+    let mut m = Model::new_empty("cf", "en", "UTC", "en").unwrap();
+    for (r, v) in ["0.5", "1.5", "2.5", "3", "7.25", "12"].iter().enumerate() { let _ = m.set_user_input(0, r as i32 + 1, 1, v.to_string()); }
+    m.evaluate();
+    m.to_bytes()
+}
+fn cf_styles(m: &Model) -> Vec<String> {
+    (1..=6).map(|r| match m.get_extended_style_for_cell(0, r, 1) { Ok(e) => format!("fill={:?} icon={:?} bar={:?} rating={:?}", e.style.fill, e.icon, e.data_bar, e.rating), Err(e) => format!("ERR {e}") }).collect()
+}
+
+impl Run {
+    fn cf_scenario(&mut self, base: &[u8], label: &str, input: &CfRuleInput, li: usize, ci: usize, via_update: bool) {
+        let (lang, loc) = (LANGS[li], LOCALES[ci]);
+        *self.dist.entry("cf_rules".to_string()).or_insert(0) += 1;
+        let replay = json!({"rule": label, "language": lang, "locale": loc, "via": if via_update { "update_conditional_formatting" } else { "add_conditional_formatting" }, "input": format!("{input:?}")});
+        // the reference: entered in en / en
+        let mut r = Model::from_bytes(base, "en").unwrap();
+        if let Err(e) = r.add_conditional_formatting(0, "A1:A6", input.clone()) { self.or.fail("cf_rule_rejected_in_english", replay, e); return; }
+        r.evaluate();
+        let stored_en = r.workbook.worksheets[0].conditional_formatting[0].cf_rule.clone();
+        let styles_en = cf_styles(&r);
+        // shown in (lang, loc)
+        let _ = r.set_language(lang);
+        let _ = r.set_locale(loc);
+        self.or.checked += 1;
+        if rule_canon(&r.workbook.worksheets[0].conditional_formatting[0].cf_rule) != rule_canon(&stored_en) {
+            self.or.fail("switch_changes_stored_cf_rule", replay, "set_language / set_locale changed a stored conditional-format rule".into()); return;
+        }
+        let shown = match r.get_conditional_formatting_list(0) { Ok(l) if l.len() == 1 => l[0].cf_rule.clone(), _ => return };
+        let typed = match rule_to_input(&shown) { Some(t) => t, None => return };
+        // entered there, in a model of that configuration with the same data
+        let mut m = Model::from_bytes(base, lang).unwrap();
+        let _ = m.set_locale(loc);
+        let res = if via_update {
+            let _ = m.add_conditional_formatting(0, "A1:A6", CfRuleInput::Blanks { format: dxf(), stop_if_true: false });
+            m.update_conditional_formatting(0, 0, "A1:A6", typed.clone()).map(|_| ())
+        } else { m.add_conditional_formatting(0, "A1:A6", typed.clone()).map(|_| ()) };
+        self.or.checked += 1;
+        if let Err(e) = res {
+            self.or.fail("cf_rule_shown_is_rejected", replay, format!("the rule as displayed in {lang}/{loc} ({shown:?}) is rejected there: {e}")); return;
+        }
+        m.evaluate();
+        let stored_m = m.workbook.worksheets[0].conditional_formatting[0].cf_rule.clone();
+        // ---- tie: the typed slots, lexed by the real lexer of the configuration -> Localize.cf_rule_input_to_internal
+        let (g, l) = (get_language(lang).unwrap(), get_locale(loc).unwrap());
+        let (en_g, en_l) = (get_language("en").unwrap(), get_locale("en").unwrap());
+        let (wire_typed, _) = rule_wire(&shown, &|t: &str| tokens(t, false, l, g).join(" "));
+        let (_, slots_stored) = rule_wire(&stored_m, &|t: &str| t.to_string());
+        let obs: Vec<String> = slots_stored.iter().map(|t| tokens(t.trim().trim_start_matches('='), false, en_l, en_g).join(" ")).collect();
+        let line = format!("Q {} {} {} 1 {} 0 | {}", li, b(dot(loc)), wire("Sheet1"), wire("Sheet1"), wire_typed);
+        if self.seen.insert(hash64(&line)) { self.cs.case(&line, &obs.join(" ;; ")); }
+        // ---- oracle: stored in English, same result in every language
+        self.or.checked += 2;
+        if rule_canon(&stored_m) != rule_canon(&stored_en) {
+            self.or.fail("cf_formula_not_stored_in_english", replay, format!("{label} entered in {lang}/{loc} as {shown:?} is stored as {stored_m:?}; entered in English it is {stored_en:?}"));
+            return;
+        }
+        let styles_m = cf_styles(&m);
+        if styles_m != styles_en {
+            let d: Vec<String> = styles_m.iter().zip(styles_en.iter()).enumerate().filter(|(_, (a, b2))| a != b2).take(2).map(|(i, (a, b2))| format!("A{}: {a} vs {b2}", i + 1)).collect();
+            self.or.fail("cf_result_depends_on_language", replay, format!("{label} in {lang}/{loc}: {d:?}"));
+            return;
+        }
+        // and the list shows it in the language again
+        match m.get_conditional_formatting_list(0) { Ok(l2) if l2.len() == 1 && rule_canon(&l2[0].cf_rule) == rule_canon(&shown) => {}
+            _ => { self.or.fail("cf_display_not_stable", replay, format!("{label}: the rule entered in {lang}/{loc} is not displayed as it was typed")); } }
+    }
+}
+
 fn probe_rename(args: &[String]) {
     // rename <lang> <locale> <formula typed in English>...: type, switch, rename ANOTHER sheet, look at the stored text
     let lang: &'static str = LANGS.iter().copied().find(|l| *l == args[0]).unwrap();
@@ -524,6 +667,19 @@ fn main() {
         if differs && !expected_dependent {
             run.or.fail("locale_changes_value_of_independent_formula", json!({"formula": f, "values_per_locale": vals}), format!("{f}: values per locale {:?} = {vals:?}", LOCALES));
         }
+    }
+    // (E) conditional-format rules: every kind and slot x all 30 configurations; add and update
+    {
+        let base = cf_base_bytes();
+        let rules = cf_rules();
+        for (k, (label, input)) in rules.iter().enumerate() {
+            for li in 0..5 { for ci in 0..6 { run.cf_scenario(&base, label, input, li, ci, (k + li + ci) % 3 == 0); } }
+        }
+    }
+    // every node kind with an argument list, in every separator family (all 30 configurations)
+    for t in ["=LAMBDA(a,b,a+b)(1,2)", "=LAMBDA(a,b,c,a*b+c)(1.5,2,A1)", "=LAMBDA(a,[b],a)(1,2)", "=SUM(1,2,3)", "=SUM(1.5,,A1)", "=unknownfn(1,2)", "=LET(a,1,b,2.5,a+b)",
+              "=LET(f,LAMBDA(p,q,p*q),f(2,3))", "={1,2,3}", "={1.5,2;3,4}", "=IF(A1>1,SUM(A1,2),MAX(1,2,3))", "=LAMBDA(R1C1x,B2_b,R1C1x+B2_b)(1,2)"] {
+        for l in 0..5 { for c in 0..6 { run.chain(t, &[(l, c)], "argument_lists"); } }
     }
     // (C) switch histories
     let (nh, len) = if a.thorough { (4000u64, 14usize) } else { (60u64, 10usize) };
